@@ -1,7 +1,8 @@
 #!/bin/bash
 # usage: benign_eval.sh <worktree-under-/tmp> <name>
 # Stores a behaviour-preserving refactoring (made by an independent sub-agent) under /verif/benign/<name>, checks that it builds and
-# that the existing suite is unchanged, applies it to /repo, runs every check (all must stay silent) and restores /repo.
+# that the existing suite is unchanged, and decides every property (all must stay silent) on a scratch worktree of /repo HEAD with the
+# patch applied; nothing is written to /repo.
 set -u
 SD=$1; NAME=$2
 export GOFLAGS=-mod=mod GOPROXY=off
@@ -20,12 +21,11 @@ echo "== gofmt"; gofmt -l $(git diff --name-only | grep '\.go$') 2>/dev/null | h
 echo "== build + suite"
 go build ./... 2>&1 | grep -v "^#\|writer/http\|unmarshal/legacy\|undefined: model\|cannot use" | head -5
 go test -vet=off -count=1 ./... 2>&1 | grep -v "no test files" | grep -v "^ok" | grep -v "writer/http\|unmarshal/legacy\|^#\|undefined: model\|cannot use [rw] \|^FAIL$" | head -10
-cd /verif; git -C /repo worktree remove --force $W
-git -C /repo apply $OUT/patch.diff || { echo "PATCH DOES NOT APPLY TO /repo"; exit 5; }
-RES=""
-for p in $(./bin/qvet list | awk '{print $1}'); do
-  o=$(./bin/qvet check -property $p 2>&1); rc=$?
-  if [ $rc -ne 0 ]; then RES="$RES $p"; echo "--- $p ALARMS:"; echo "$o" | grep -v "^VIOLATION\|^qvet\|KNOWN-FINDING" | cut -c1-500 | head -8; fi
-done
-git -C /repo checkout -- . ; for f in $(grep -A1 '^--- /dev/null' $OUT/patch.diff | grep '^+++ b/' | sed 's#^+++ b/##'); do rm -f /repo/$f; done; git -C /repo status --short | head -3
-echo "ALARMS:$RES"
+# decide every property on the scratch worktree with the refactoring applied (tools/benign_rerun.sh repeats this against /repo itself)
+cd /verif
+QV=${QVET_BIN:-./bin/qvet}
+o=$(QVET_VERIF=/verif QVET_REPO=$W $QV verdicts 2>&1)
+echo "$o" | grep "^   \[" | cut -c1-500 | head -${BENIGN_LINES:-14}
+echo "$o" | grep -q '^C01 ' || echo "NO VERDICTS: $(echo "$o" | head -3)"
+echo "ALARMS:$(echo "$o" | awk '$2=="ALARM"{printf " %s",$1}')"
+git -C /repo worktree remove --force $W
